@@ -55,6 +55,16 @@ def _resolve_callable(model, fi, e, own_cls):
             return 'new', c
     if d in ('getattr', 'object.__new__'):
         return 'builtin', d
+    import builtins as _b
+    if d and '.' not in d and hasattr(_b, d) and d not in fi.module.assigns and \
+            model.resolve_func(d, fi.module) is None and model.resolve_class(d, fi.module) is None:
+        return 'external', d
+    if d and d.split('.')[0] in fi.module.imports and fi.module.imports[d.split('.')[0]][0].startswith('<ext>'):
+        return 'external', d
+    if txt.startswith('type(self).') or txt.startswith('self.__class__.'):
+        attr = txt.split('.')[-1]
+        if own_cls is not None and model.method(own_cls, attr) is None and model.class_attr(own_cls, attr) is None:
+            return 'missing-own', txt
     if d:
         c = model.resolve_class(d, fi.module)
         if c is not None:
@@ -81,6 +91,14 @@ def _check_tuple(ctx, rule, model, fi, ret, own_cls, label):
         return True
     if kind == 'builtin':
         ctx.ob(rule, key, len(args) == 2, fi, ret, 'getattr(obj, name)')
+        return True
+    if kind == 'external':
+        ctx.ob(rule, key + ' (external reader)', True, fi, ret,
+               'rebuilt by a standard-library / builtin callable: arity trusted')
+        return True
+    if kind == 'missing-own':
+        ctx.note('%s: %s names an attribute no class in the package defines (pickling raises AttributeError); '
+                 'not part of a given property, reported as a note' % (label, target))
         return True
     if kind == 'unknown':
         ctx.ob(rule, key + ' (unresolved)', False, fi, ret,
